@@ -10,10 +10,13 @@ import sys
 import time
 
 VERIF = os.path.dirname(os.path.dirname(os.path.abspath(__file__)))
-REPO = "/repo"
-WORK = os.path.join(VERIF, "work")
+# The registered checks always run against /repo. For development (trying a seeded change on a scratch worktree while
+# /repo is in use) VERIF_ALT_REPO=<dir> points the harness at another checkout and keeps all scratch output apart.
+ALT = os.environ.get("VERIF_ALT_REPO")
+REPO = ALT or "/repo"
+WORK = os.path.join(VERIF, "work") if not ALT else os.path.join(VERIF, "work", "alt-" + hashlib.sha256(ALT.encode()).hexdigest()[:8])
 LEAN = os.path.join(VERIF, "lean")
-HARNESS = os.path.join(VERIF, "harness")
+HARNESS = os.path.join(VERIF, "harness") if not ALT else os.path.join(WORK, "harness")
 HBIN = os.path.join(WORK, "harness-target", "debug", "bcharness")
 DRIVER = os.path.join(LEAN, ".lake", "build", "bin", "driver")
 IOTRACE = os.path.join(WORK, "iotrace.so")
@@ -32,7 +35,8 @@ TRUSTED_BASE = [
 class Lock:
     def __init__(self, name):
         os.makedirs(WORK, exist_ok=True)
-        self.path = os.path.join(WORK, name + ".lock")
+        # the Lean project is shared by every run, whatever checkout the harness is built against
+        self.path = os.path.join(VERIF, "work", name + ".lock") if name == "lake" else os.path.join(WORK, name + ".lock")
 
     def __enter__(self):
         self.f = open(self.path, "w")
@@ -65,6 +69,16 @@ def build_iotrace():
 def build_harness():
     """Rebuild the harness against /repo's current working tree (cargo decides what is stale)."""
     with Lock("cargo"):
+        if ALT:
+            import shutil
+            src = os.path.join(VERIF, "harness")
+            os.makedirs(HARNESS, exist_ok=True)
+            for name in ("src", ".cargo"):
+                shutil.rmtree(os.path.join(HARNESS, name), ignore_errors=True)
+                shutil.copytree(os.path.join(src, name), os.path.join(HARNESS, name))
+            toml = open(os.path.join(src, "Cargo.toml")).read().replace('path = "/repo"', f'path = "{ALT}"')
+            if not os.path.exists(os.path.join(HARNESS, "Cargo.toml")) or open(os.path.join(HARNESS, "Cargo.toml")).read() != toml:
+                open(os.path.join(HARNESS, "Cargo.toml"), "w").write(toml)
         lock = os.path.join(HARNESS, "Cargo.lock")
         if not os.path.exists(lock):
             import shutil
